@@ -207,7 +207,9 @@ class MultiTargetMCSU2(Gate):
         if isinstance(unitary, list):
             num_target = len(unitary)
             circuit.append(
-                MultiTargetMCSU2(unitary, len(controls), num_target=num_target).definition,
+                MultiTargetMCSU2(
+                    unitary, len(controls), num_target=num_target, ctrl_state=ctrl_state
+                ).definition,
                 [*controls, *target],
             )
         else:
